@@ -41,7 +41,7 @@ CO_OBJ *CODictFind(CO_DICT *cod, uint32_t key)
     ASSERT_PTR_ERR(cod->Root, NULL);
 
     pattern = CO_GET_DEV(key);
-    end = cod->Num;
+    end = (int32_t)cod->Num - 1;
     while (start <= end) {
         center = start + ((end - start) / 2);
         obj    = &(cod->Root[center]);
